@@ -325,6 +325,7 @@ type constRel struct {
 var constRels = []constRel{
 	{"mpt-key-covers-storage-key", "pkg/core/mpt", "MaxKeyLength", "pkg/config/limits", "MaxStorageKeyLen", 4, "trie key = contract id (int32, 4 bytes) + storage key"},
 	{"mpt-value-covers-storage-value", "pkg/core/mpt", "MaxValueLength", "pkg/config/limits", "MaxStorageValueLen", 0, "a leaf holds the storage value"},
+	{"mpt-value-covers-native-item", "pkg/core/mpt", "MaxValueLength", "pkg/vm/stackitem", "MaxSize", 0, "native contracts store serialised stack items (ContractManagement: the contract state, NEF and manifest together) through dao.PutStorageConvertible, bounded by stackitem.MaxSize only - System.Storage.Put's MaxStorageValueLen does not apply to them"},
 }
 
 func ruleLimitCoherence(c *Ctx) {
